@@ -8,6 +8,7 @@ import six
 import attr
 
 import asn1crypto.core
+import asn1crypto.parser
 
 from cryptodatahub.common.exception import InvalidValue
 
@@ -186,7 +187,7 @@ class LDAPExtendedRequestStartTLS(LDAPMessageParsableBase):
     def _parse(cls, parsable):
         asn1_message = cls._parse_asn1(parsable)
 
-        return LDAPExtendedRequestStartTLS(), len(asn1_message.dump())
+        return LDAPExtendedRequestStartTLS(), asn1crypto.parser.peek(bytes(parsable))
 
     def compose(self):
         return LDAPMessage({
@@ -213,7 +214,7 @@ class LDAPExtendedResponseStartTLS(LDAPMessageParsableBase):
 
         return LDAPExtendedResponseStartTLS(
             asn1_message['protocolOp'].chosen['resultCode'].native
-        ), len(asn1_message.dump())
+        ), asn1crypto.parser.peek(bytes(parsable))
 
     def compose(self):
         return LDAPMessage({
